@@ -14,10 +14,17 @@
 //       instance before it stores a sample; `instances` never shrinks);
 //   R3  `instance_ownership` holds pairwise distinct instance handles, all registered in `instances`
 //       (pushed only after a lookup miss, removed by dispose/unregister/deadline).
-// Every stored sample carries a distinct one-byte payload (`tag`) so that a post-state can be compared
-// with the pre-state sample by sample; the incoming change uses `NEW_TAG`.
+// Every stored sample carries a distinct `tag` in byte 1 of its writer GUID prefix (an arbitrary byte of
+// a real GUID; with SHARED ownership add_reader_change never inspects the writer GUID of a *stored*
+// sample, it only copies it) so that a post-state can be compared with the pre-state sample by sample;
+// the incoming change carries NEW_TAG in the same byte of its writer GUID.
 //
-// API is shared with other harness families (C20/C22/C23/C24): extend, do not change signatures.
+// Cost notes (measured): the vectors of the pre-state are allocated with their final capacity (the
+// reallocation path of `Vec` is library code, not code under test) and all stored samples share ONE
+// payload allocation, so that `Vec::remove`/`insert` at a symbolic index does not have to dereference
+// a symbolic `Arc` pointer.  `PreState::n`, the number of stored samples, is a *concrete* value per harness
+// (harness families enumerate n = 0..=3); the derived `<InstanceHandle as PartialEq>::eq` is replaced by
+// a proven-equivalent loop-free stub (`handle_eq_stub`) so that the unwinding bound can be 6 instead of 18.
 use alloc::string::String;
 use alloc::sync::Arc;
 use alloc::vec::Vec;
@@ -38,7 +45,7 @@ use crate::transport::types::{ChangeKind, Guid};
 pub const MAX_STORED: usize = 3;
 pub const N_INST: usize = 2;
 pub const N_WRITERS: usize = 2;
-/// payload byte of the incoming change (stored samples use 0, 1, 2)
+/// tag of the incoming change (stored samples use 0, 1, 2)
 pub const NEW_TAG: u8 = 9;
 
 // ---------------------------------------------------------------------------------------------
@@ -55,17 +62,31 @@ pub fn handle(i: usize) -> InstanceHandle {
 pub fn inst_index(h: &InstanceHandle) -> usize {
     (<[u8; 16]>::from(*h)[0] as usize).wrapping_sub(1)
 }
-pub fn writer_bytes(i: usize) -> [u8; 16] {
+/// writer guid: byte 0 = 1 + writer index, byte 1 = sample tag, entity kind 0x02 (writer with key)
+pub fn writer_bytes(i: usize, tag: u8) -> [u8; 16] {
     let mut b = [0u8; 16];
     b[0] = 1 + i as u8;
-    b[15] = 0x02; // user defined writer with key
+    b[1] = tag;
+    b[15] = 0x02;
     b
 }
-pub fn writer_guid(i: usize) -> Guid {
-    Guid::from(writer_bytes(i))
+pub fn writer_guid(i: usize, tag: u8) -> Guid {
+    Guid::from(writer_bytes(i, tag))
 }
 pub fn writer_index(g: &[u8; 16]) -> usize {
     (g[0] as usize).wrapping_sub(1)
+}
+
+/// Loop-free replacement for the derived `<InstanceHandle as core::cmp::PartialEq>::eq` (a 16-byte `memcmp`
+/// loop in CBMC, which alone forces a global unwinding bound of 17 on every list loop of the code
+/// under test).  Harnesses install it with
+/// `#[kani::stub(<crate::infrastructure::instance::InstanceHandle as core::cmp::PartialEq>::eq, super::support_reader::handle_eq_stub)]`;
+/// its equivalence with the real derived `eq` for all 2 x 16 bytes is itself an obligation
+/// (`c18_handle_eq_stub_is_equivalent`, which runs the real `eq`).
+pub fn handle_eq_stub(a: &InstanceHandle, b: &InstanceHandle) -> bool {
+    let x: [u8; 16] = (*a).into();
+    let y: [u8; 16] = (*b).into();
+    u128::from_le_bytes(x) == u128::from_le_bytes(y)
 }
 
 // ---------------------------------------------------------------------------------------------
@@ -106,6 +127,20 @@ pub fn any_small_time() -> Time {
 pub fn any_opt_small_time() -> Option<Time> {
     if kani::any() {
         Some(any_small_time())
+    } else {
+        None
+    }
+}
+/// Time from a wide range: sec in 0..2^30, every normalised nanosec.
+pub fn any_wide_time() -> Time {
+    let sec: i32 = kani::any();
+    let ns: u32 = kani::any();
+    kani::assume(sec >= 0 && sec < (1 << 30) && ns < 1_000_000_000);
+    Time::new(sec, ns)
+}
+pub fn any_opt_wide_time() -> Option<Time> {
+    if kani::any() {
+        Some(any_wide_time())
     } else {
         None
     }
@@ -227,12 +262,31 @@ pub struct InstSpec {
 
 #[derive(Clone, Copy)]
 pub struct PreState {
+    /// == n (kept so that loops over the shadow are guarded by a value CBMC's constant propagation sees)
+    pub cap: usize,
+    /// number of stored samples: a CONCRETE value per harness (a symbolic list length makes every list
+    /// loop of the code under test unroll to the global unwinding bound and doubles the formula)
     pub n: usize,
     pub s: [SampleSpec; MAX_STORED],
     pub inst: [InstSpec; N_INST],
 }
 
-pub fn any_sample_spec(tag: u8) -> SampleSpec {
+/// Value domain of the source timestamps of a harness.
+#[derive(Clone, Copy, PartialEq, Eq)]
+pub enum TimeDomain {
+    /// None or sec 0..4 x nanosec {0, 5*10^8}
+    Small,
+    /// None or sec 0..2^30 x every normalised nanosec
+    Wide,
+}
+pub fn any_opt_time(td: TimeDomain) -> Option<Time> {
+    match td {
+        TimeDomain::Small => any_opt_small_time(),
+        TimeDomain::Wide => any_opt_wide_time(),
+    }
+}
+
+pub fn any_sample_spec(tag: u8, td: TimeDomain) -> SampleSpec {
     let dgc: i32 = kani::any();
     let nwgc: i32 = kani::any();
     kani::assume(dgc >= 0 && dgc <= 2 && nwgc >= 0 && nwgc <= 2);
@@ -240,7 +294,7 @@ pub fn any_sample_spec(tag: u8) -> SampleSpec {
         kind: any_change_kind(),
         inst: any_index(N_INST),
         writer: any_index(N_WRITERS),
-        ts: any_opt_small_time(),
+        ts: any_opt_time(td),
         sample_state: any_sample_state(),
         dgc,
         nwgc,
@@ -269,11 +323,11 @@ impl PreState {
     /// R1..R3 on the shadow (R1 and the distinctness part of R3 hold by construction: one optional
     /// entry per handle).
     pub fn rep_ok(&self) -> bool {
-        let mut ok = self.n <= MAX_STORED;
+        let mut ok = self.n <= self.cap && self.cap <= MAX_STORED;
         let mut i = 0;
         while i < MAX_STORED {
-            if i < self.n {
-                ok = ok && self.inst[self.s[i].inst].known;
+            if i < self.cap && i < self.n {
+                ok = ok && self.inst_known(self.s[i].inst);
             }
             i += 1;
         }
@@ -284,11 +338,47 @@ impl PreState {
         }
         ok
     }
+    /// `inst[h].known` without indexing an array at a symbolic position (N_INST == 2)
+    pub fn inst_known(&self, h: usize) -> bool {
+        (h == 0 && self.inst[0].known) || (h == 1 && self.inst[1].known)
+    }
     pub fn count(&self, f: impl Fn(&SampleSpec) -> bool) -> usize {
         let mut c = 0;
         let mut i = 0;
         while i < MAX_STORED {
-            if i < self.n && f(&self.s[i]) {
+            if i < self.cap && i < self.n && f(&self.s[i]) {
+                c += 1;
+            }
+            i += 1;
+        }
+        c
+    }
+    /// every pair i < j of stored samples satisfies `f(s[i], s[j])`
+    pub fn all_pairs(&self, f: impl Fn(&SampleSpec, &SampleSpec) -> bool) -> bool {
+        let mut ok = true;
+        let mut i = 0;
+        while i < MAX_STORED {
+            let mut j = i + 1;
+            while j < MAX_STORED {
+                if j < self.cap && j < self.n {
+                    ok = ok && f(&self.s[i], &self.s[j]);
+                }
+                j += 1;
+            }
+            i += 1;
+        }
+        ok
+    }
+    /// every stored sample satisfies `f`
+    pub fn all(&self, f: impl Fn(&SampleSpec) -> bool) -> bool {
+        self.count(|s| !f(s)) == 0
+    }
+    /// number of stored samples, other than the one at index `skip` (MAX_STORED = none), satisfying `f`
+    pub fn count_but(&self, skip: usize, f: impl Fn(&SampleSpec) -> bool) -> usize {
+        let mut c = 0;
+        let mut i = 0;
+        while i < MAX_STORED {
+            if i < self.cap && i < self.n && i != skip && f(&self.s[i]) {
                 c += 1;
             }
             i += 1;
@@ -327,7 +417,7 @@ impl PreState {
         let mut i = MAX_STORED;
         while i > 0 {
             i -= 1;
-            if i < self.n && f(&self.s[i]) {
+            if i < self.cap && i < self.n && f(&self.s[i]) {
                 r = i;
             }
         }
@@ -335,26 +425,68 @@ impl PreState {
     }
 }
 
-/// Fully symbolic pre-state of the bounded family, representation invariant assumed.
-pub fn any_pre_state() -> PreState {
-    let n: usize = kani::any();
-    kani::assume(n <= MAX_STORED);
+/// Symbolic pre-state of the bounded family with exactly `n` stored samples (`n` is a *concrete*
+/// number <= MAX_STORED chosen by the harness: a harness family enumerates n = 0, 1, 2, 3), everything
+/// else symbolic, representation invariant assumed.
+pub fn any_pre_state_td(n: usize, td: TimeDomain) -> PreState {
     let pre = PreState {
+        cap: n,
         n,
-        s: [any_sample_spec(0), any_sample_spec(1), any_sample_spec(2)],
+        s: [any_sample_spec(0, td), any_sample_spec(1, td), any_sample_spec(2, td)],
         inst: [any_inst_spec(), any_inst_spec()],
     };
     kani::assume(pre.rep_ok());
     pre
 }
+pub fn any_pre_state(n: usize) -> PreState {
+    any_pre_state_td(n, TimeDomain::Small)
+}
 
-pub fn make_sample(s: &SampleSpec) -> ReaderSample {
+/// Structure of a pre-state = everything that decides lengths of (and positions in) the real vectors.
+/// Harnesses pass it as CONCRETE values: measured on this code, a symbolic list length or a symbolic
+/// presence of an `instances` / `instance_ownership` entry doubles the formula and exhausts 12 GB, while
+/// symbolic *values* (kinds, instance of each sample, timestamps, states, counts) cost nothing extra.
+#[derive(Clone, Copy)]
+pub struct Structure {
+    /// number of stored samples
+    pub n: usize,
+    /// which instance handles are registered in `instances`
+    pub known: [bool; N_INST],
+    /// which instance handles have an `instance_ownership` entry
+    pub owned: [bool; N_INST],
+}
+
+/// Both instances registered, no `instance_ownership` entry (with SHARED ownership the table is only
+/// written by add_reader_change, never read for a decision).
+pub fn plain(n: usize) -> Structure {
+    Structure { n, known: [true, true], owned: [false, false] }
+}
+
+pub fn any_pre_state_st(st: &Structure, td: TimeDomain) -> PreState {
+    let mut inst = [any_inst_spec(), any_inst_spec()];
+    let mut h = 0;
+    while h < N_INST {
+        inst[h].known = st.known[h];
+        inst[h].owned = st.owned[h];
+        h += 1;
+    }
+    let pre = PreState {
+        cap: st.n,
+        n: st.n,
+        s: [any_sample_spec(0, td), any_sample_spec(1, td), any_sample_spec(2, td)],
+        inst,
+    };
+    kani::assume(pre.rep_ok());
+    pre
+}
+
+pub fn make_sample(s: &SampleSpec, data: &Arc<[u8]>) -> ReaderSample {
     ReaderSample {
         kind: s.kind,
-        writer_guid: writer_bytes(s.writer),
+        writer_guid: writer_bytes(s.writer, s.tag),
         instance_handle: handle(s.inst),
         source_timestamp: s.ts,
-        data_value: Arc::from([s.tag]),
+        data_value: data.clone(),
         sample_state: s.sample_state,
         disposed_generation_count: s.dgc,
         no_writers_generation_count: s.nwgc,
@@ -365,13 +497,20 @@ pub fn make_sample(s: &SampleSpec) -> ReaderSample {
 pub fn build_reader(qos: DataReaderQos, pre: &PreState) -> DataReaderEntity<()> {
     let mut r = DataReaderEntity::new(InstanceHandle::new([0xAA; 16]), qos, String::new(), ());
     r.enabled = true;
+    // exactly one spare slot: CBMC models the buffer as a byte array and the memmove of Vec::remove /
+    // Vec::insert at a symbolic index costs O(buffer bytes ^ 2) propositional variables
+    r.sample_list = Vec::with_capacity(pre.n + 1);
+    r.instances = Vec::with_capacity(N_INST);
+    r.instance_ownership = Vec::with_capacity(N_INST);
+    let data: Arc<[u8]> = Arc::from([0u8]);
     let mut i = 0;
     while i < MAX_STORED {
-        if i < pre.n {
-            r.sample_list.push(make_sample(&pre.s[i]));
+        if i < pre.cap && i < pre.n {
+            r.sample_list.push(make_sample(&pre.s[i], &data));
         }
         i += 1;
     }
+    core::mem::forget(data); // the shared payload outlives every sample (destructors are outside the claim)
     let mut h = 0;
     while h < N_INST {
         let x = &pre.inst[h];
@@ -388,7 +527,7 @@ pub fn build_reader(qos: DataReaderQos, pre: &PreState) -> DataReaderEntity<()> 
         if x.owned {
             r.instance_ownership.push(InstanceOwnership {
                 instance_handle: handle(h),
-                owner_handle: writer_bytes(x.owner),
+                owner_handle: writer_bytes(x.owner, 0),
                 last_received_time: x.own_last_rx,
             });
         }
@@ -440,7 +579,7 @@ pub fn observe<T>(r: &DataReaderEntity<T>) -> PostState {
                 writer: writer_index(&x.writer_guid),
                 ts: x.source_timestamp,
                 sample_state: x.sample_state,
-                tag: if x.data_value.len() == 1 { x.data_value[0] } else { 0xFE },
+                tag: x.writer_guid[1],
             };
         }
         i += 1;
@@ -459,6 +598,22 @@ impl PostState {
             i += 1;
         }
         c
+    }
+    /// every pair i < j of stored samples satisfies `f(s[i], s[j])`
+    pub fn all_pairs(&self, f: impl Fn(&SampleView, &SampleView) -> bool) -> bool {
+        let mut ok = true;
+        let mut i = 0;
+        while i < MAX_POST {
+            let mut j = i + 1;
+            while j < MAX_POST {
+                if j < self.n {
+                    ok = ok && f(&self.s[i], &self.s[j]);
+                }
+                j += 1;
+            }
+            i += 1;
+        }
+        ok
     }
     pub fn alive_total(&self) -> usize {
         self.count(|s| s.kind == ChangeKind::Alive)
@@ -480,7 +635,7 @@ impl PostState {
         }
         c
     }
-    /// position of the sample with payload `tag`, or MAX_POST
+    /// position of the sample with tag `tag`, or MAX_POST
     pub fn position_of(&self, tag: u8) -> usize {
         let mut r = MAX_POST;
         let mut i = MAX_POST;
@@ -496,27 +651,78 @@ impl PostState {
         self.position_of(tag) < MAX_POST
     }
     /// The stored pre-state samples other than `removed` (an index into the pre-state, MAX_STORED =
-    /// none) are all still present, unchanged, in their pre-state relative order.
+    /// none) are all still present, unchanged, in their pre-state relative order.  Written over
+    /// concrete index pairs only (no array access at a symbolic position).
     pub fn keeps_all_but(&self, pre: &PreState, removed: usize) -> bool {
         let mut ok = true;
-        let mut last = 0usize; // 1 + position of the previous kept sample
         let mut i = 0;
         while i < MAX_STORED {
-            if i < pre.n && i != removed {
-                let p = self.position_of(pre.s[i].tag);
-                ok = ok
-                    && p < MAX_POST
-                    && p + 1 > last
-                    && self.s[p].kind == pre.s[i].kind
-                    && self.s[p].inst == pre.s[i].inst
-                    && self.s[p].writer == pre.s[i].writer
-                    && self.s[p].ts == pre.s[i].ts
-                    && self.s[p].sample_state == pre.s[i].sample_state;
-                if p < MAX_POST {
-                    last = p + 1;
+            if i < pre.cap && i < pre.n && i != removed {
+                // (a) present and unchanged
+                let mut found = false;
+                let mut q = 0;
+                while q < MAX_POST {
+                    if q < self.n && self.s[q].tag == pre.s[i].tag {
+                        found = true;
+                        ok = ok
+                            && self.s[q].kind == pre.s[i].kind
+                            && self.s[q].inst == pre.s[i].inst
+                            && self.s[q].writer == pre.s[i].writer
+                            && self.s[q].ts == pre.s[i].ts
+                            && self.s[q].sample_state == pre.s[i].sample_state;
+                        // (b) relative order: a later kept pre-state sample is not stored in front of it
+                        let mut i2 = i + 1;
+                        while i2 < MAX_STORED {
+                            if i2 < pre.cap && i2 < pre.n && i2 != removed {
+                                let mut q2 = 0;
+                                while q2 < MAX_POST {
+                                    if q2 <= q && q2 < self.n && self.s[q2].tag == pre.s[i2].tag {
+                                        ok = false;
+                                    }
+                                    q2 += 1;
+                                }
+                            }
+                            i2 += 1;
+                        }
+                    }
+                    q += 1;
                 }
+                ok = ok && found;
             }
             i += 1;
+        }
+        ok
+    }
+    /// number of stored samples carrying NEW_TAG that equal the incoming change (kind, instance, timestamp)
+    pub fn new_sample_matches(&self, c: &Incoming) -> usize {
+        let (kind, inst, ts) = (c.kind, c.inst, c.ts);
+        self.count(|s| s.tag == NEW_TAG && s.kind == kind && s.inst == inst && s.ts == ts)
+    }
+    /// number of stored samples carrying NEW_TAG
+    pub fn new_samples(&self) -> usize {
+        self.count(|s| s.tag == NEW_TAG)
+    }
+    /// the last stored sample carries NEW_TAG
+    pub fn new_sample_is_last(&self) -> bool {
+        let mut r = false;
+        let mut q = 0;
+        while q < MAX_POST {
+            if q + 1 == self.n {
+                r = self.s[q].tag == NEW_TAG;
+            }
+            q += 1;
+        }
+        r
+    }
+    /// the pre-state sample `i` (a possibly symbolic index; MAX_STORED = none) is no longer stored
+    pub fn dropped(&self, pre: &PreState, i: usize) -> bool {
+        let mut ok = true;
+        let mut k = 0;
+        while k < MAX_STORED {
+            if k == i {
+                ok = ok && !self.contains(pre.s[k].tag);
+            }
+            k += 1;
         }
         ok
     }
@@ -530,45 +736,50 @@ impl PostState {
 pub fn rep_ok_real<T>(r: &DataReaderEntity<T>) -> bool {
     let mut ok = true;
     let ni = r.instances.len();
-    let mut known = [0usize; N_INST];
+    let (mut known0, mut known1) = (0usize, 0usize);
     let mut i = 0;
     while i < N_INST + 1 {
         if i < ni {
             let h = inst_index(r.instances[i].handle());
-            if h < N_INST {
-                known[h] += 1;
+            if h == 0 {
+                known0 += 1;
+            } else if h == 1 {
+                known1 += 1;
             } else {
                 ok = false;
             }
         }
         i += 1;
     }
-    ok = ok && ni <= N_INST && known[0] <= 1 && known[1] <= 1;
+    ok = ok && ni <= N_INST && known0 <= 1 && known1 <= 1;
     let ns = r.sample_list.len();
     let mut j = 0;
     while j < MAX_POST {
         if j < ns {
             let h = inst_index(&r.sample_list[j].instance_handle);
-            ok = ok && h < N_INST && known[h] == 1;
+            ok = ok && ((h == 0 && known0 == 1) || (h == 1 && known1 == 1));
         }
         j += 1;
     }
     let no = r.instance_ownership.len();
-    let mut owned = [0usize; N_INST];
+    let (mut owned0, mut owned1) = (0usize, 0usize);
     let mut k = 0;
     while k < N_INST + 1 {
         if k < no {
             let h = inst_index(&r.instance_ownership[k].instance_handle);
-            if h < N_INST {
-                owned[h] += 1;
-                ok = ok && known[h] == 1;
+            if h == 0 {
+                owned0 += 1;
+                ok = ok && known0 == 1;
+            } else if h == 1 {
+                owned1 += 1;
+                ok = ok && known1 == 1;
             } else {
                 ok = false;
             }
         }
         k += 1;
     }
-    ok && no <= N_INST && owned[0] <= 1 && owned[1] <= 1
+    ok && no <= N_INST && owned0 <= 1 && owned1 <= 1
 }
 
 // ---------------------------------------------------------------------------------------------
@@ -583,14 +794,17 @@ pub struct Incoming {
     pub rx: Time,
 }
 
-pub fn any_incoming() -> Incoming {
+pub fn any_incoming_td(td: TimeDomain) -> Incoming {
     Incoming {
         kind: any_change_kind(),
         inst: any_index(N_INST),
         writer: any_index(N_WRITERS),
-        ts: any_opt_small_time(),
+        ts: any_opt_time(td),
         rx: any_small_time(),
     }
+}
+pub fn any_incoming() -> Incoming {
+    any_incoming_td(TimeDomain::Small)
 }
 
 #[derive(Clone, Copy, PartialEq, Eq)]
@@ -601,11 +815,13 @@ pub enum StepResult {
     Error,
 }
 
-/// ONE real `DataReaderEntity::add_reader_change` with the incoming change (payload = [NEW_TAG]).
+/// ONE real `DataReaderEntity::add_reader_change` with the incoming change (writer GUID tag NEW_TAG).
 pub fn step<T>(r: &mut DataReaderEntity<T>, c: &Incoming) -> StepResult {
+    let data: Arc<[u8]> = Arc::from([0u8]);
+    core::mem::forget(data.clone()); // the payload is never freed (destructors are outside the claim)
     match r.add_reader_change(
-        writer_guid(c.writer),
-        Arc::from([NEW_TAG]),
+        writer_guid(c.writer, NEW_TAG),
+        data,
         c.kind,
         handle_bytes(c.inst),
         c.ts,
@@ -623,4 +839,113 @@ pub fn step<T>(r: &mut DataReaderEntity<T>, c: &Incoming) -> StepResult {
 
 pub fn zero_separation() -> DurationKind {
     DurationKind::Finite(Duration::new(0, 0))
+}
+
+// ---------------------------------------------------------------------------------------------
+// cache-relevant QoS of one harness run and the history/limit invariants over the shadow
+// ---------------------------------------------------------------------------------------------
+#[derive(Clone, Copy)]
+pub struct Cfg {
+    /// 0 = KEEP_ALL, d >= 1 = KEEP_LAST(d)
+    pub depth: usize,
+    pub ms: Length,
+    pub mi: Length,
+    pub mspi: Length,
+    pub order: DestinationOrderQosPolicyKind,
+    pub sep: DurationKind,
+}
+
+/// Which history kinds a harness covers.  `KeepAll` is a CONCRETE QoS value: CBMC then prunes the
+/// KEEP_LAST eviction (`Vec::remove` at a symbolic index), which more than halves the formula.
+#[derive(Clone, Copy, PartialEq, Eq)]
+pub enum Hist {
+    KeepAll,
+    /// KEEP_LAST(depth), depth symbolic in 1..=3
+    KeepLast,
+}
+
+/// each resource limit in {1,2,3,unlimited}; the QoS is assumed consistent
+/// (`DataReaderQos::is_consistent`, the real predicate) when `qos()` is called.
+pub fn any_cfg(hist: Hist, order: DestinationOrderQosPolicyKind, sep: DurationKind) -> Cfg {
+    let depth: usize = match hist {
+        Hist::KeepAll => 0,
+        Hist::KeepLast => {
+            let d: usize = kani::any();
+            kani::assume(d >= 1 && d <= 3);
+            d
+        }
+    };
+    Cfg { depth, ms: any_limit(), mi: any_limit(), mspi: any_limit(), order, sep }
+}
+
+impl Cfg {
+    pub fn keep_last(&self) -> bool {
+        self.depth >= 1
+    }
+    pub fn qos(&self) -> DataReaderQos {
+        let history = if self.depth == 0 {
+            HistoryQosPolicyKind::KeepAll
+        } else {
+            HistoryQosPolicyKind::KeepLast(self.depth as u32)
+        };
+        reader_qos(history, self.ms, self.mi, self.mspi, self.order, self.sep)
+    }
+    /// History invariant the implementation maintains: per instance at most `depth` stored ALIVE samples.
+    pub fn history_inv(&self, pre: &PreState) -> bool {
+        !self.keep_last() || (pre.inst_alive(0) <= self.depth && pre.inst_alive(1) <= self.depth)
+    }
+    /// Resource-limit invariant in the implementation's own counting convention: max_samples counts the
+    /// stored samples of kind ALIVE, max_samples_per_instance every stored sample of the instance,
+    /// max_instances the instance handles that have at least one stored sample.
+    pub fn limits_inv(&self, pre: &PreState) -> bool {
+        within_limit(pre.alive_total(), self.ms)
+            && within_limit(pre.instances_with_samples(), self.mi)
+            && within_limit(pre.inst_total(0), self.mspi)
+            && within_limit(pre.inst_total(1), self.mspi)
+    }
+    pub fn history_inv_post(&self, post: &PostState) -> bool {
+        !self.keep_last() || (post.inst_alive(0) <= self.depth && post.inst_alive(1) <= self.depth)
+    }
+    pub fn limits_inv_post(&self, post: &PostState) -> bool {
+        within_limit(post.alive_total(), self.ms)
+            && within_limit(post.instances_with_samples(), self.mi)
+            && within_limit(post.inst_total(0), self.mspi)
+            && within_limit(post.inst_total(1), self.mspi)
+    }
+    /// KEEP_LAST and the instance of the incoming change already holds `depth` ALIVE samples: the
+    /// implementation evicts the oldest (first stored) ALIVE sample of that instance.
+    pub fn replacement_case(&self, pre: &PreState, c: &Incoming) -> bool {
+        self.keep_last() && pre.inst_alive(c.inst) == self.depth
+    }
+    /// index (in the pre-state) of the sample KEEP_LAST evicts for this change, MAX_STORED = none
+    pub fn evicted(&self, pre: &PreState, c: &Incoming) -> usize {
+        if self.replacement_case(pre, c) {
+            let inst = c.inst;
+            pre.first(|s| s.inst == inst && s.kind == ChangeKind::Alive)
+        } else {
+            MAX_STORED
+        }
+    }
+    /// the rejection reason names a resource limit that is reached in the pre-state
+    pub fn rejection_justified(&self, pre: &PreState, c: &Incoming, reason: SampleRejectedStatusKind) -> bool {
+        match reason {
+            SampleRejectedStatusKind::RejectedBySamplesLimit => limit_reached(pre.alive_total(), self.ms),
+            SampleRejectedStatusKind::RejectedByInstancesLimit => {
+                pre.inst_total(c.inst) == 0 && limit_reached(pre.instances_with_samples(), self.mi)
+            }
+            SampleRejectedStatusKind::RejectedBySamplesPerInstanceLimit => {
+                limit_reached(pre.inst_total(c.inst), self.mspi)
+            }
+            SampleRejectedStatusKind::NotRejected => false,
+        }
+    }
+}
+
+/// Pre-state + incoming change of one run: structure concrete, values symbolic, representation,
+/// history and resource-limit invariants assumed.
+pub fn any_run(st: &Structure, cfg: &Cfg, td: TimeDomain) -> (PreState, Incoming) {
+    let pre = any_pre_state_st(st, td);
+    kani::assume(cfg.history_inv(&pre));
+    kani::assume(cfg.limits_inv(&pre));
+    (pre, any_incoming_td(td))
 }
